@@ -237,6 +237,8 @@ fn child_main(file: &str) -> ! {
     std::process::exit(0);
 }
 
+fn child_timeout() -> u64 { std::env::var("C20_CHILD_TIMEOUT").ok().and_then(|s| s.parse().ok()).unwrap_or(40) }
+
 /// run the child on `file`; None = the child died / hung (C22 territory)
 fn run_child(file: &Path) -> Result<BTreeMap<String, String>, String> {
     let exe = std::env::current_exe().map_err(|e| e.to_string())?;
@@ -247,7 +249,7 @@ fn run_child(file: &Path) -> Result<BTreeMap<String, String>, String> {
         match ch.try_wait() {
             Ok(Some(_)) => break,
             Ok(None) => {
-                if t0.elapsed() > Duration::from_secs(60) { let _ = ch.kill(); let _ = ch.wait(); return Err("hang".into()); }
+                if t0.elapsed() > Duration::from_secs(child_timeout()) { let _ = ch.kill(); let _ = ch.wait(); return Err("hang".into()); }
                 std::thread::sleep(Duration::from_millis(2));
             }
             Err(e) => return Err(e.to_string()),
@@ -577,6 +579,26 @@ fn facts(b: &[u8], base: Option<(&[u8], &str)>) -> Vec<String> {
             out.push(format!("{key}{}", view_of(kind, &bytes).unwrap_or_else(|| "err".into())));
         }
     }
+    // pre-footer TOC image (`scan_range_for_toc`): the trailing 32 bytes are blake3(body ++ 32 zero bytes); tested at the
+    // offsets where a TOC can start (the header's hint and the original TOC offset) instead of every offset
+    if let (Some((ob, bd)), true) = (base, foot.is_none()) {
+        let mut offs: Vec<usize> = Vec::new();
+        if let Some(h) = &hdr { offs.push(h.footer_offset as usize); }
+        if ob.len() >= HEADER_SIZE { if let Ok(h0) = HeaderCodec::decode(ob[..HEADER_SIZE].try_into().unwrap()) { offs.push(h0.footer_offset as usize); } }
+        offs.dedup();
+        for o in offs {
+            if o + 32 + 24 > len { continue; }
+            let (body, stored) = b[o..].split_at(len - o - 32);
+            let mut hsh = blake3::Hasher::new();
+            hsh.update(body); hsh.update(&[0u8; 32]);
+            if hsh.finalize().as_bytes() != stored { continue; }
+            if let Some(t) = decode_toc(&b[o..]) {
+                let d = toc_desc(&t);
+                out.push(format!("legacy@{o}={}", if d == bd { "same".to_string() } else { d }));
+                break;
+            }
+        }
+    }
     // WAL entries (all of them for the original, the pending ones otherwise)
     if let Some(h) = &hdr {
         for (po, l, seq) in wal_records(b, h.wal_offset as usize, h.wal_size.min(1 << 32) as usize) {
@@ -592,36 +614,35 @@ fn facts(b: &[u8], base: Option<(&[u8], &str)>) -> Vec<String> {
 // corruption plan
 fn plan(lay: &Layout, orig: &[u8], rng: &mut Rng, thorough: bool) -> Vec<Mutn> {
     let mut v: Vec<Mutn> = Vec::new();
-    // number of sampled positions per span (besides its first and last byte)
-    let samples = |sp: &Span| -> usize {
-        let n = sp.end - sp.start;
-        if thorough { return n; }
+    // quick: (random positions besides the first and last byte of the span, probability of also flipping one bit)
+    let samples = |sp: &Span| -> (usize, u64) {
         match (sp.region.as_str(), sp.sub.as_str()) {
-            ("header", "padding") | ("header", "legacy_lock") => 1,
-            ("header", "toc_checksum") => 2,
-            ("header", _) => n,
-            ("footer", "toc_hash") => 3,
-            ("footer", _) => 2,
-            ("wal", "slack") => 2,
-            ("wal", s) if s.ends_with("_seq") => 2,
-            ("wal", s) if s.ends_with("_payload") => 1,
-            ("wal", _) => 1,
-            ("toc", _) => 60,
-            ("payload", _) => 4,
-            ("index", "tantivy") => 3,
-            ("index", _) => 6,
-            _ => 1,
+            ("header", "padding") | ("header", "legacy_lock") => (0, 0),
+            ("header", "toc_checksum") => (0, 4),
+            ("header", "magic") | ("header", "version") | ("header", "spec") => (0, 4),
+            ("header", _) => (2, 2),                 // the five u64 fields: 4 of 8 bytes
+            ("footer", "toc_hash") => (1, 4),
+            ("footer", _) => (0, 3),
+            ("wal", "slack") => (1, 0),
+            ("wal", s) if s.ends_with("_seq") => (1, 3),
+            ("wal", _) => (0, 4),
+            ("toc", _) => (14, 3),
+            ("payload", _) => (1, 3),
+            ("index", "tantivy") => (1, 4),
+            ("index", _) => (2, 3),
+            _ => (0, 0),
         }
     };
     let mut wal_records_seen = 0;
     for sp in &lay.spans {
         let n = sp.end - sp.start;
-        // quick tier: only the first two and the last WAL record get the full treatment
+        // quick tier: only the first and the last WAL record get the full treatment, plus the sequence of a few others
         if !thorough && sp.region == "wal" && sp.sub.starts_with("applied") {
             if sp.sub.ends_with("_seq") { wal_records_seen += 1; }
-            if wal_records_seen > 2 && !(sp.sub.ends_with("_seq") && rng.chance(1, 3)) { continue; }
+            let last = lay.spans.iter().filter(|s| s.sub == "applied_seq").count();
+            if wal_records_seen != 1 && wal_records_seen != last && !(sp.sub.ends_with("_seq") && rng.chance(1, 4)) { continue; }
         }
-        let k = samples(sp);
+        let (k, p01) = if thorough { (n, 1) } else { samples(sp) };
         let mut offs: Vec<usize> = if k >= n { (sp.start..sp.end).collect() } else {
             let mut o = vec![sp.start, sp.end - 1];
             for _ in 0..k { o.push(rng.usize(sp.start, sp.end - 1)); }
@@ -630,10 +651,10 @@ fn plan(lay: &Layout, orig: &[u8], rng: &mut Rng, thorough: bool) -> Vec<Mutn> {
         offs.sort(); offs.dedup();
         for o in offs {
             v.push(Mutn::Xor(o, 0xFF));
-            if thorough || sp.region == "header" || sp.region == "footer" || rng.chance(1, 3) { v.push(Mutn::Xor(o, 0x01)); }
+            if thorough || (p01 > 0 && rng.chance(1, p01)) { v.push(Mutn::Xor(o, 0x01)); }
         }
     }
-    // truncations at region boundaries ±1 (quick: the coarse regions only)
+    // truncations at region boundaries ±1 (quick: the coarse regions, one offset each side)
     let mut bounds: Vec<usize> = if thorough { lay.spans.iter().map(|s| s.start).collect() } else {
         let mut b = vec![HEADER_SIZE, lay.wal_off + lay.wal_size, lay.toc_off, lay.len - FOOTER_SIZE];
         if let Some(s) = lay.spans.iter().find(|s| s.region == "index") { b.push(s.start); }
@@ -644,6 +665,7 @@ fn plan(lay: &Layout, orig: &[u8], rng: &mut Rng, thorough: bool) -> Vec<Mutn> {
     for &b in &bounds {
         for d in [-1i64, 0, 1] {
             let t = b as i64 + d;
+            if !thorough && d == 1 && b != lay.len - FOOTER_SIZE { continue; }
             if t >= 0 && (t as usize) < lay.len { v.push(Mutn::Trunc(t as usize)); }
         }
     }
@@ -652,11 +674,11 @@ fn plan(lay: &Layout, orig: &[u8], rng: &mut Rng, thorough: bool) -> Vec<Mutn> {
     for sp in &lay.spans {
         if sp.region == "wal" && sp.sub == "slack" { continue; }
         let label = format!("{}/{}", sp.region, sp.sub);
-        if !thorough && !seen.insert(label) { continue; }
+        if !thorough && (!seen.insert(label) || sp.sub == "padding" || sp.sub == "legacy_lock") { continue; }
         if orig[sp.start..sp.end].iter().any(|&x| x != 0) { v.push(Mutn::Zero(sp.start, sp.end - sp.start)); }
         let s = sp.start.saturating_sub(1);
         let l = (sp.end - s).min(9);
-        if orig[s..s + l].iter().any(|&x| x != 0) && (thorough || rng.chance(1, 4)) { v.push(Mutn::Zero(s, l)); }
+        if orig[s..s + l].iter().any(|&x| x != 0) && (thorough || rng.chance(1, 6)) { v.push(Mutn::Zero(s, l)); }
     }
     v
 }
@@ -743,34 +765,36 @@ fn compare_pred(pred: &BTreeMap<String, String>, base: &BTreeMap<String, String>
 
 /// oracle side: name the failure class of every silently differing read (independent of the model)
 /// → (signature, model tag that must vouch for it when the signature is a listed finding)
-fn signatures(v: &Verdict, sp: &Span, n0: usize) -> Vec<(String, &'static str)> {
+fn signatures(v: &Verdict, touched: &[Span], n0: usize) -> Vec<(String, &'static str)> {
     let mut out: Vec<(String, &'static str)> = Vec::new();
     let mut push = |s: &str, t: &'static str| { if !out.iter().any(|(x, _)| x == s) { out.push((s.to_string(), t)); } };
+    let hit = |r: &str, s: &str| touched.iter().any(|x| x.region == r && (s.is_empty() || x.sub == s));
+    let sp = &touched[0];
     for p in ["ro", "rw"] {
         let mine: Vec<&String> = v.differs.iter().filter(|d| d.starts_with(&format!("{p}."))).collect();
         if mine.is_empty() { continue; }
         let replay = mine.iter().any(|d| d.starts_with(&format!("{p}.count:")));
         let read_errors = v.errors.iter().any(|e| e.starts_with(&format!("{p}.f")) && e.contains(".payload="));
+        let payload_diff = mine.iter().any(|d| { let k = d.split(':').next().unwrap_or(""); k.ends_with(".payload") || k.ends_with(".blob") });
         for d in mine {
             let key = d.split(':').next().unwrap_or("");
             let fidx: Option<usize> = key.split('.').nth(1).and_then(|s| s.strip_prefix('f')).and_then(|s| s.parse().ok());
-            if key.ends_with(".payload") || key.ends_with(".blob") || (key.ends_with(".text") && !replay && fidx.map(|i| i < n0).unwrap_or(false)) {
-                if fidx.map(|i| i < n0).unwrap_or(true) { push("payload-checksum-not-compared", "payload-unchecked"); continue; }
-            }
             if replay {
-                match sp.region.as_str() {
-                    "header" => push("header-wal-sequence-lowered-replays-applied-records", "wal-replay"),
-                    "wal" => push("wal-record-sequence-not-covered-by-record-hash", "wal-replay"),
-                    _ => push("unexpected-wal-replay", "wal-replay"),
-                }
+                if hit("header", "") { push("header-wal-sequence-lowered-replays-applied-records", "wal-replay"); }
+                else if hit("wal", "") { push("wal-record-sequence-not-covered-by-record-hash", "wal-replay"); }
+                else { push("unexpected-wal-replay", "wal-replay"); }
                 continue;
             }
-            if key.ends_with(".timeline") && sp.region == "index" && sp.sub == "time" { push("time-index-checksum-not-compared", "time-unchecked"); }
+            if key.ends_with(".payload") || key.ends_with(".blob") || (key.ends_with(".text") && fidx.map(|i| i < n0).unwrap_or(false)) {
+                push("payload-checksum-not-compared", "payload-unchecked");
+            }
+            else if key.ends_with(".timeline") && hit("index", "time") { push("time-index-checksum-not-compared", "time-unchecked"); }
             else if key.ends_with(".emb") || key.ends_with(".vsearch") { push("vec-index-load-failure-swallowed", "vec-unchecked"); }
-            else if key.contains(".search.") {
-                if sp.region == "index" && sp.sub == "tantivy" { push("lex-index-open-failure-falls-back-to-empty-index", "lex-unchecked"); }
-                else if sp.region == "index" && sp.sub == "sketch" { push("sketch-track-checksum-not-compared", "sketch-unchecked"); }
-                else if sp.region == "toc" && p == "rw" { push("toc-corruption-laundered-by-footer-realign", "toc-laundered"); }
+            else if key.contains(".search.") || key.ends_with(".timeline") {
+                if payload_diff { push("payload-checksum-not-compared", "payload-unchecked"); }
+                else if hit("index", "tantivy") { push("lex-index-open-failure-falls-back-to-empty-index", "lex-unchecked"); }
+                else if hit("index", "sketch") { push("sketch-track-checksum-not-compared", "sketch-unchecked"); }
+                else if hit("toc", "") && p == "rw" { push("toc-corruption-laundered-by-footer-realign", "toc-laundered"); }
                 else if read_errors { push("search-drops-hits-of-unreadable-frames", "search-swallows-read-errors"); }
                 else { push(&format!("silent-change-{}-{}-search", sp.region, sp.sub), ""); }
             }
@@ -832,7 +856,11 @@ fn evaluate(cx: &Ctx, m: &Mutn, got: &Result<BTreeMap<String, String>, String>, 
         println!("model: {model_line}");
     }
     // oracle (independent of the model)
-    let sigs = signatures(&v, &sp, cx.n0);
+    let touched: Vec<Span> = match *m {
+        Mutn::Zero(s0, l) => { let mut t = vec![sp.clone()]; for x in &cx.lay.spans { if x.start < s0 + l && s0 < x.end && x.start != sp.start { t.push(x.clone()); } } t }
+        _ => vec![sp.clone()],
+    };
+    let sigs = signatures(&v, &touched, cx.n0);
     for (sig, tag) in &sigs {
         let what = format!("{label} at {}: {} read(s) differ without an error, e.g. {}; verify(deep)={}", mut_offset(m, cx.lay.len), v.differs.len(),
             v.differs.iter().find(|_| true).map(|s| s.chars().take(160).collect::<String>()).unwrap_or_default(), v.verify);
@@ -865,11 +893,15 @@ fn run_all(cx: &Ctx, muts: &[Mutn], dir: &Path, jobs: usize, drv: &mut Driver, s
             results.lock().unwrap()[i] = Some(r);
         }));
     }
+    let t0 = Instant::now();
     for h in hs { let _ = h.join(); }
+    let t_children = t0.elapsed().as_secs_f64();
     let results = results.lock().unwrap();
+    let t1 = Instant::now();
     for (i, m) in muts.iter().enumerate() {
         evaluate(cx, m, results[i].as_ref().unwrap(), drv, sum);
     }
+    sum.notes.push(format!("{} corrupted files: children {:.0} s wall ({jobs} jobs), facts + model + oracle {:.0} s", muts.len(), t_children, t1.elapsed().as_secs_f64()));
 }
 
 fn main() {
@@ -887,7 +919,9 @@ fn main() {
     sum.expect_branches(&["class-detected", "class-harmless", "region-header", "region-wal", "region-payload", "region-index", "region-toc", "region-footer"]);
     let known: Vec<String> = args.extra.get("known").map(|s| s.split(',').map(|x| x.to_string()).collect()).unwrap_or_default();
     let jobs = args.extra.get("jobs").and_then(|s| s.parse().ok()).unwrap_or(4usize);
-    let dir = tempfile::tempdir().expect("tempdir");
+    // scratch copies are rewritten thousands of times: keep them in memory-backed storage when there is one
+    let dir = if std::env::var_os("TMPDIR").is_some() { tempfile::tempdir() }
+        else { tempfile::Builder::new().prefix("c20-").tempdir_in("/dev/shm").or_else(|_| tempfile::tempdir()) }.expect("tempdir");
     let shapes: Vec<Shape> = if args.mode == "replay" {
         let case = load_replay(args.replay_file.as_ref().expect("replay file"));
         let input = case.get("input").unwrap_or(&case).clone();
